@@ -9,7 +9,9 @@
 // Line protocol (see lean/Driver/Expr.lean):
 //   E tok tok ...      tokens joined by one blank -> tokenizer_t::tokenize -> expressionParser::parse
 //                      (the raw expression parser: identifiers stay identifiers, no type tokens)
-//   X <pct-text>       the same on an arbitrary text (percent-encoded)
+//   G tok tok ...      the same, but the input is not claimed to be a C expression: the re-parse
+//                      oracle is off (token soup; only the correspondence with the model counts)
+//   X <pct-text>       as E on an arbitrary text (percent-encoded)
 //   S <pct-text>       a whole program through parser_t::parseSource (statements, declarations,
 //                      casts, control flow); printed through parser.root.print
 //   Q <pct-text>       escape(value,'"') / escape(value,'\'') of utils/string.cpp on a raw value
@@ -60,6 +62,9 @@ static bool unpct(const std::string &s, std::string &out) {
 static std::string atom(const std::string &s) { return pct(s); }
 
 static std::string dumpType(const vartype_t &t);
+static std::string shortType(const vartype_t &t) {
+  return (t.type ? t.type->name() : std::string("?")) + std::string(t.pointers.size(), '*');
+}
 
 static std::string encName(int e) {
   std::string s;
@@ -70,6 +75,10 @@ static std::string encName(int e) {
   if (e & encodingType::L)  s += "L";
   return s.empty() ? "-" : s;
 }
+
+// `spelled`: literals by their source text (observation compared with the model);
+// otherwise by type and value bits (the oracle's structural comparison)
+static bool spelled = false;
 
 static std::string dump(const exprNode *n) {
   if (!n) return "(null)";
@@ -92,7 +101,7 @@ static std::string dump(const exprNode *n) {
   if (const subscriptNode *s = dynamic_cast<const subscriptNode*>(n))
     return "(sub " + dump(s->value) + " " + dump(s->index) + ")";
   if (const parenCastNode *c = dynamic_cast<const parenCastNode*>(n))
-    return "(cast " + dumpType(c->valueType) + " " + dump(c->value) + ")";
+    return "(cast " + (spelled ? shortType(c->valueType) : dumpType(c->valueType)) + " " + dump(c->value) + ")";
   if (const sizeofNode *s = dynamic_cast<const sizeofNode*>(n))
     return "(sizeof " + dump(s->value) + ")";
   if (const throwNode *s = dynamic_cast<const throwNode*>(n))
@@ -106,6 +115,7 @@ static std::string dump(const exprNode *n) {
     return "(pair " + atom(p->op.str) + " " + dump(p->value) + ")";
   if (const primitiveNode *p = dynamic_cast<const primitiveNode*>(n)) {
     // structural identity of a literal: its type and the bytes of its value (never its text)
+    if (spelled) return "(prim " + atom(p->value.toString()) + ")";
     std::ostringstream ss;
     ss << "(prim t" << p->value.type << " ";
     uint64_t bits = 0;
@@ -139,7 +149,7 @@ static std::string dump(const exprNode *n) {
   if (const typeNode *t = dynamic_cast<const typeNode*>(n))
     return "(type " + atom(t->value.name()) + ")";
   if (const vartypeNode *t = dynamic_cast<const vartypeNode*>(n))
-    return "(vartype " + dumpType(t->value) + ")";
+    return "(vartype " + (spelled ? shortType(t->value) : dumpType(t->value)) + ")";
   if (ty & exprNodeType::empty) return "(empty)";
   if (const exprOpNode *o = dynamic_cast<const exprOpNode*>(n))
     return "(rawop " + atom(o->op.str) + ")";
@@ -227,7 +237,7 @@ struct Quiet {
   Quiet() {
     std::cout.flush(); fflush(stdout); fflush(stderr);
     saved1 = dup(1); saved2 = dup(2);
-    int n = open("/dev/null", O_WRONLY); dup2(n, 1); dup2(n, 2); close(n);
+    static int n = open("/dev/null", O_WRONLY); dup2(n, 1); dup2(n, 2);
   }
   ~Quiet() {
     std::cout.flush(); fflush(stdout); fflush(stderr);
@@ -235,10 +245,44 @@ struct Quiet {
   }
 };
 
+// tokenContext_t::parseExpression replaces type keywords (and the pointer declarators that
+// follow) by one vartypeToken before calling the expression parser; the raw expression entry
+// point used here does the same for the builtin type names below.
+static const primitive_t* builtinType(const std::string &s) {
+  if (s == "int") return &int_;
+  if (s == "float") return &float_;
+  if (s == "double") return &double_;
+  if (s == "char") return &char_;
+  if (s == "short") return &short_;
+  if (s == "bool") return &bool_;
+  if (s == "void") return &void_;
+  return NULL;
+}
 static exprNode* parseExpr(const std::string &src) {
-  tokenVector tokens = tokenizer_t::tokenize(src);
+  tokenVector raw = tokenizer_t::tokenize(src);
+  tokenVector tokens;
+  for (size_t i = 0; i < raw.size(); ++i) {
+    token_t *t = raw[i];
+    const primitive_t *bt = NULL;
+    if (t && (t->type() & tokenType::identifier)) bt = builtinType(t->to<identifierToken>().value);
+    if (!bt) { tokens.push_back(t); continue; }
+    vartype_t vt(*bt);
+    size_t j = i + 1;
+    while (j < raw.size() && raw[j] && (raw[j]->type() & tokenType::op) &&
+           (raw[j]->to<operatorToken>().opType() & operatorType::mult)) {
+      vt += pointer_t();
+      delete raw[j];
+      ++j;
+    }
+    tokens.push_back(new vartypeToken(t->origin, vt));
+    delete t;
+    i = j - 1;
+  }
   return expressionParser::parse(tokens);
 }
+
+static bool oracleOn = true;
+static void oracle(const std::string &what) { if (oracleOn) hp::oracle(what); }
 
 static std::string roundTripExpr(const std::string &src) {
   exprNode *e1 = NULL;
@@ -247,6 +291,9 @@ static std::string roundTripExpr(const std::string &src) {
     try { e1 = parseExpr(src); } catch (...) { e1 = NULL; }
   }
   if (!e1) return "err";
+  spelled = true;
+  const std::string obs1 = dump(e1);
+  spelled = false;
   const std::string t1 = dump(e1);
   std::string text;
   bool printed = true;
@@ -255,7 +302,7 @@ static std::string roundTripExpr(const std::string &src) {
     try { text = e1->toString(); } catch (...) { printed = false; }
   }
   delete e1;
-  if (!printed) { hp::oracle("printing the parsed expression raised"); return "ok T=" + t1 + " P=% R=err"; }
+  if (!printed) { oracle("printing the parsed expression raised"); return "ok T=" + obs1 + " P=% R=err"; }
   exprNode *e2 = NULL;
   {
     Quiet q;
@@ -264,14 +311,17 @@ static std::string roundTripExpr(const std::string &src) {
   std::string r;
   if (!e2) {
     r = "err";
-    hp::oracle("printed expression does not re-parse: " + pct(text));
+    oracle("printed expression does not re-parse: " + pct(text));
   } else {
     const std::string t2 = dump(e2);
+    spelled = true;
+    const std::string obs2 = dump(e2);
+    spelled = false;
     delete e2;
     if (t2 == t1) r = "same";
-    else { r = t2; hp::oracle("printed expression re-parses to a different tree: " + pct(text)); }
+    else { r = (obs2 == obs1 ? t2 : obs2); oracle("printed expression re-parses to a different tree: " + pct(text)); }
   }
-  return "ok T=" + t1 + " P=" + pct(text) + " R=" + r;
+  return "ok T=" + obs1 + " P=" + pct(text) + " R=" + r;
 }
 
 static bool parseProgram(const std::string &src, std::string &tree, std::string &text) {
@@ -313,9 +363,12 @@ int main() {
     [](const std::vector<std::string> &t) -> std::string {
       if (t.empty()) return "bad-op";
       std::string text;
-      if (t[0] == "E") {
+      if (t[0] == "E" || t[0] == "G") {
         for (size_t i = 1; i < t.size(); ++i) text += (i > 1 ? " " : "") + t[i];
-        return roundTripExpr(text);
+        oracleOn = (t[0] == "E");
+        std::string r = roundTripExpr(text);
+        oracleOn = true;
+        return r;
       }
       if (t[0] == "X" && t.size() == 2 && unpct(t[1], text)) return roundTripExpr(text);
       if (t[0] == "S" && t.size() == 2 && unpct(t[1], text)) return roundTripProgram(text);
